@@ -2,7 +2,7 @@ use std::convert::{TryFrom, TryInto};
 
 use regex::Regex;
 use smol_str::SmolStr;
-use unicode_segmentation::UnicodeSegmentation;
+use unicode_width::UnicodeWidthStr;
 
 use crate::features::side_by_side::ansifill::ODD_PAD_CHAR;
 
@@ -83,7 +83,7 @@ impl<T> FormatStringPlaceholderDataAnyPlaceholder<T> {
     pub fn only_string(s: &str) -> Self {
         Self {
             suffix: s.into(),
-            suffix_len: s.graphemes(true).count(),
+            suffix_len: display_width(s),
             ..Self::default()
         }
     }
@@ -161,6 +161,12 @@ fn parse_field_size(digits: &str) -> usize {
         .map_or(MAX_FIELD_SIZE, |n| n.min(MAX_FIELD_SIZE))
 }
 
+// The number of terminal columns that the text around a placeholder takes (a wide character
+// takes two: counting characters makes side-by-side rows overflow their panel).
+fn display_width(s: &str) -> usize {
+    UnicodeWidthStr::width(s)
+}
+
 // The resulting vector is never empty
 pub fn parse_line_number_format<'a>(
     format_string: &'a str,
@@ -185,9 +191,9 @@ pub fn parse_line_number_format<'a>(
         let match_ = captures.get(0).unwrap();
         let prefix = SmolStr::new(&format_string[offset..match_.start()]);
         let prefix = expand_first_prefix(prefix);
-        let prefix_len = prefix.graphemes(true).count();
+        let prefix_len = display_width(&prefix);
         let suffix = SmolStr::new(&format_string[match_.end()..]);
-        let suffix_len = suffix.graphemes(true).count();
+        let suffix_len = display_width(&suffix);
         format_data.push(FormatStringPlaceholderData {
             prefix,
             prefix_len,
@@ -207,13 +213,13 @@ pub fn parse_line_number_format<'a>(
     if offset == 0 {
         let prefix = SmolStr::new("");
         let prefix = expand_first_prefix(prefix);
-        let prefix_len = prefix.graphemes(true).count();
+        let prefix_len = display_width(&prefix);
         // No placeholders
         format_data.push(FormatStringPlaceholderData {
             prefix,
             prefix_len,
             suffix: SmolStr::new(format_string),
-            suffix_len: format_string.graphemes(true).count(),
+            suffix_len: display_width(format_string),
             ..Default::default()
         })
     }
